@@ -1,31 +1,36 @@
 /-
 C11 — "A query returns what a naive model computes from the written points".
 
-Property theorems only (helper lemmas: LinVerif/Lemmas/C11*.lean).  The full-strength statement
+Property theorems only (helper lemmas: LinVerif/Lemmas/C11*.lean). The model has two variants of
+every statement that a `fix:` commit of this property repaired (`Cfg`); the regenerated facts
+select the variant (`cfg_tie`). The theorems are about the repaired code:
 
-    ∀ ops q, leaf (run ops) q = naiveQuery q (pointsOf ops)          -- (FULL)
-
-is FALSE of the code as it is (see `namespace Neg`: each theorem there is a concrete witness that is
-replayed against the real implementation on every run).  What is proved instead are the `_partial`
-theorems, each under the explicit hypothesis that excludes the failing region:
-
-* `write_buffer_refines_slotmap_partial`  one page: every run whose steps are `goodStep`
-  (no first-time slot before the current `end`; a first/last page is only compacted without overlap)
-* `storage_refines_slotmap_partial`       whole shard: any sequence of writes / window compactions /
-  flushes / file compactions / reopens with `goodOps` (page steps good, created-times distinct,
-  schema registered, first/last pages flushed without overlap)
-* `flush_placement_independent`           hence: same writes, any placement of flush/compact/reopen
-* `month_family_selection_partial`        month-type family selection for ranges inside one month
+* `write_buffer_refines_slotmap`   one page, EVERY aggregate, EVERY write sequence (no hypothesis)
+* `storage_refines_slotmap`        whole shard, any sequence of writes / window compactions / flushes /
+                                   file compactions / reopens (only: a field is written with its registered type)
+* `flush_placement_independent`    hence: same writes, any placement of flush / compact / reopen
+* `month_family_selection`         month-type family selection, every query range
+* `query_eq_naive_partial`         leaf answer = reference for a function whose agg type is the field's
+                                   own commutative aggregate, over any series / families / sources
+The remaining `_partial` hypotheses exclude the four findings that are NOT repaired (first/last and
+non-native functions over several storage units; second half of the negations at the end of the
+file). The first half of the negations is about the OLD variants: they document what each fix
+repaired, next to the proof that the repaired variant answers the reference on the same witness.
 -/
 import LinVerif.Lemmas.C11Refine
 import LinVerif.Lemmas.C11Query
 import LinVerif.Lemmas.C11Compose
 import LinVerif.Generated.C11
+import LinVerif.Driver.C11
 
 namespace LinVerif.Props.C11
 open LinVerif LinVerif.NaiveQuery LinVerif.MemDB LinVerif.Lemmas.C11
 
 /-! ## ties to the generated facts (re-extracted from /repo on every run) -/
+
+/-- the regenerated facts describe the repaired code: all seven fixes of this property are in the
+source (a reverted fix selects the old model variant and this obligation fails by name). -/
+theorem cfg_tie : LinVerif.Driver.C11.cfgOfFacts = Cfg.fixed := by decide
 
 /-- the time window of a page: `(pageSize - headLen) / valueSize` slots. -/
 theorem window_tie : (Generated.C11.pageSize - Generated.C11.headLen) / Generated.C11.valueSize = 15 := by decide
@@ -42,17 +47,18 @@ theorem layout_tie :
     Generated.C11.markOffset = Generated.C11.endOffset + 1 ∧
     Generated.C11.endOffset = Generated.C11.startOffset + 2 := by decide
 
-/-- `write` assigns `buf[endOffset] = byte(delta)` for every first-time slot, unguarded
-(model: `endd := d` in the unmarked branch of `MemDB.write`). -/
+/-- `write` assigns `buf[endOffset] = byte(delta)` for a first-time slot only when it lies beyond
+the current end (model: `endd := if d > endd then d else endd` in `MemDB.writeG true`). -/
 theorem write_end_assignment_tie :
     Generated.C11.writeEndAssignments =
-      ["!(buf[markOffset+markIdx]&flagIdx != 0) => buf[endOffset] = byte(delta)"] := by decide
+      ["!(buf[markOffset+markIdx]&flagIdx != 0) && byte(delta) > buf[endOffset] => buf[endOffset] = byte(delta)"] := by
+  decide
 
-/-- argument orders of `Aggregate` in `write` (old, new) and in `merge` (new, old)
-(model: `A.agg old v` in `write`, `A.agg n o` in `mergeCell`). -/
+/-- argument orders of `Aggregate` in `write` (old, new) and in `merge` (old, new)
+(model: `A.agg old v` in `write`, `A.agg o n` in `mergeCell`). -/
 theorem aggregate_arg_order_tie :
     Generated.C11.writeAggregateArgs = ["oldValue,value"] ∧
-    Generated.C11.mergeAggregateArgs = ["newValue,oldValue"] := by decide
+    Generated.C11.mergeAggregateArgs = ["oldValue,newValue"] := by decide
 
 theorem getCurrentValue_guard_tie :
     Generated.C11.getCurrentValueGuard = "timeSlot < startTime || timeSlot > startTime+getEnd(buf)" := by decide
@@ -91,13 +97,14 @@ theorem load_order_tie :
        "λ:ctx.DownSampling", "λ:fm.getPage", "λ:fm.Reset", "λ:int", "λ:ctx.DownSampling",
        "ctx.IterateLowSeriesIDs"] := by decide
 
-/-- `dataFamily.Filter`: memory result sets, then file result sets; a failing source fails the
-family (model: `familyCalls`). -/
+/-- `dataFamily.Filter`: memory result sets, then file result sets; a source's not-found is
+ignored (model: `familyCalls`, `memResult`, `combineCalls`). -/
 theorem family_filter_order_tie :
     Generated.C11.familyFilterCalls =
       ["fasttime.UnixMilliseconds", "lastReadTime.Store", "f.memoryFilter", "f.fileFilter", "append", "append"] ∧
     Generated.C11.familyMemoryFilterCalls =
-      ["λ:memDB.Filter", "λ:append", "mutex.Lock", "defer:mutex.Unlock", "memFilter", "memFilter"] := by decide
+      ["λ:memDB.Filter", "λ:errors.Is", "λ:append", "mutex.Lock", "defer:mutex.Unlock", "memFilter", "memFilter"] := by
+  decide
 
 /-- the `DownSampling` loop statement by statement (model: `dsLoop`). -/
 theorem downsampling_loop_tie :
@@ -108,10 +115,12 @@ theorem downsampling_loop_tie :
        "targetSlot := (baseSlot + int(movingSourceSlot)) / intervalRatio", "emitValue(targetSlot, value)"] := by
   decide
 
-/-- `fieldAggregator.Aggregate` feeds every primitive iterator into `AggregateBySlot`
+/-- `fieldAggregator.Aggregate` feeds a primitive iterator into the array of its own agg type
 (model: `reduceInto`). -/
 theorem field_aggregate_tie :
-    Generated.C11.fieldAggregateCalls = ["it.HasNext", "it.Next", "pIt.HasNext", "pIt.Next", "a.AggregateBySlot"] := by
+    Generated.C11.fieldAggregateCalls =
+      ["it.HasNext", "it.Next", "pIt.AggType", "pIt.HasNext", "pIt.Next", "a.AggregateBySlot",
+       "a.aggregateBySlotOfType"] := by
   decide
 
 /-- function calls (model: `funcCall`). -/
@@ -120,68 +129,62 @@ theorem func_call_tie :
       [FuncType.sum, .min, .max, .count, .last, .first].map (fun f => f.code) ∧
     Generated.C11.rateValueExpr = "val / float64(interval/timeutil.OneSecond)" := by decide
 
-/-- the memory database's created time is a `fasttime` tick; `Cleanup` clears the time range kept
-under it (model: `MemDB.created`, `Shard.ranges`, `Shard.flush`). -/
+/-- the memory database's created time is process-unique; `Cleanup` clears the time range kept
+under it (model: `Shard.newCreated`, `Shard.ranges`, `Shard.flush`). -/
 theorem created_time_tie :
-    Generated.C11.memdbCreatedTimeExpr = "fasttime.UnixNano()" ∧
+    Generated.C11.memdbCreatedTimeExpr = "nextCreatedTime()" ∧
     Generated.C11.indexCleanupCalls =
       ["db.CreatedTime", "fasttime.UnixMilliseconds", "db.MemTimeSeriesIDs", "λ:timeSeriesIndex.ClearTimeRange",
        "λ:timeSeriesIndex.ExpireTimeSeriesIDs", "λ:timeSeriesIndex.GC", "λ:timeSeriesIndex.NumOfSeries",
        "λ:timeSeriesIndexes.Delete", "timeSeriesIndexes.Range"] := by decide
 
-/-- the month calculator's `CalcFamily` is the day of month of the timestamp alone, and
-`segment.GetDataFamilies` builds its family range from it (model: `monthFamilySelected`). -/
+/-- the month calculator's `CalcFamily` is the day of month of the timestamp alone;
+`segment.GetDataFamilies` builds its family range from `CalcFamilyTime` of the query start / end
+(model: `monthFamilySelected`). -/
 theorem month_calc_tie :
     Generated.C11.monthCalcFamilyBody = ["t := time.Unix(timestamp/1000, 0)", "return t.Day()"] ∧
     Generated.C11.segmentGetDataFamiliesCalls =
-      ["interval.Calculator", "calc.CalcFamily", "calc.CalcFamilyStartTime", "calc.CalcFamily",
-       "calc.CalcFamilyStartTime", "kvStore.ListFamilyNames", "strconv.Atoi", "s.getOrLoadFamily",
-       "family.TimeRange", "familyQueryTimeRange.Overlap", "append"] := by decide
+      ["interval.Calculator", "calc.CalcFamilyTime", "calc.CalcFamilyTime", "kvStore.ListFamilyNames",
+       "strconv.Atoi", "s.getOrLoadFamily", "family.TimeRange", "familyQueryTimeRange.Overlap", "append"] := by
+  decide
 
-/-- a file with one field is down-sampled into query field index 0 (model: `blockSourceField`). -/
+/-- a file with one field is down-sampled into the query field it belongs to
+(model: `blockSourceField`). -/
 theorem single_field_read_tie :
     Generated.C11.readSeriesDataSingleField =
-      "decoder.ResetWithTimeRange(seriesEntryBlock, r.timeRange.Start, r.timeRange.End) ; ctx.DownSampling(r.timeRange, seriesIdx, 0, decoder) ; return" := by
+      "for queryIdx, readIdx := range r.readFieldIndexes { if readIdx == fieldNotFound { continue } decoder.ResetWithTimeRange(seriesEntryBlock, r.timeRange.Start, r.timeRange.End) ctx.DownSampling(r.timeRange, seriesIdx, queryIdx, decoder) } ; return" := by
   rfl
 
 /-! ## the write buffer -/
 
-/-- **Page level.** For every aggregate, every window size and every write sequence whose steps
-are all `goodStep`, what a memory query sees of the page (compress buffer, then write window) is
-the reference slot map: all values written to a slot, combined in arrival order. -/
-theorem write_buffer_refines_slotmap_partial (w : Nat) (hw : 0 < w) (A : AggType) (ws : List (Nat × Int))
-    (hg : goodRunB w A (Buf.fresh w) ws = true) (t : Nat) :
+/-- **Page level, full strength.** For every window size, every aggregate (first/last included)
+and EVERY write sequence — duplicates, any slot order inside and outside the window — what a memory
+query sees of the page (compress buffer, then write window) is the reference slot map: all values
+written to a slot, combined in arrival order. -/
+theorem write_buffer_refines_slotmap (w : Nat) (hw : 0 < w) (A : AggType) (ws : List (Nat × Int)) (t : Nat) :
     memView A (runWrites w A (Buf.fresh w) ws) t = refSlots A ws t := by
-  have := (run_refines w A ws (Buf.fresh w) (BufInv.fresh hw) hg).2 t
+  have := (run_refines w A ws (Buf.fresh w) (BufInv.fresh hw)).2 t
   simpa [memView_fresh] using this
 
-/-- An extensional sufficient condition: the slots of the page arrive in non-decreasing order.
-Then the refinement holds for every field type, first/last included. -/
-theorem write_buffer_refines_sorted (w : Nat) (hw : 0 < w) (A : AggType) (ws : List (Nat × Int))
-    (hs : ws.Pairwise (fun a c => a.1 ≤ c.1)) (t : Nat) :
-    memView A (runWrites w A (Buf.fresh w) ws) t = refSlots A ws t :=
-  write_buffer_refines_slotmap_partial w hw A ws (sorted_goodRun w hw A ws hs) t
-
-/-- the hypothesis is satisfiable by a run that leaves the window, re-enters it and writes
-duplicates (sum field, real window size). -/
-example : goodRunB 15 .sum (Buf.fresh 15) [(5, 1), (7, 2), (9, 4), (7, 8), (30, 1), (6, 3), (6, 5), (31, 2)] = true := by
-  decide
+/-- the variant selected by the facts is the one the theorem is about. -/
+theorem write_variant_tie : writeV LinVerif.Driver.C11.cfgOfFacts = write := by
+  rw [cfg_tie]; exact writeV_fixed Cfg.fixed rfl rfl
 
 /-- a flush writes, for every slot of the metric-level range, what the memory query saw
-(commutative aggregate, or no slot both in the window and in the compress buffer). -/
-theorem flush_cells_eq_memview (w : Nat) (b : Buf) (A : AggType) (hi : BufInv w b)
-    (hc : AggType.isComm A = true ∨ overlapB b = false) (lo hiR t : Nat)
+(every aggregate). -/
+theorem flush_cells_eq_memview (w : Nat) (b : Buf) (A : AggType) (hi : BufInv w b) (lo hiR t : Nat)
     (hcov : ∀ t, memView A b t ≠ none → lo ≤ t ∧ t ≤ hiR) :
     (if t < lo ∨ t > hiR then none else cellAt (flushCells A b lo hiR) (t - lo)) = memView A b t :=
-  flushCell_eq_memView A hi hc lo hiR t hcov
+  flushCell_eq_memView A hi lo hiR t hcov
 
 /-! ## the shard: mutable memory database ∪ files -/
 
 /-- **Storage refinement.** `abs(state) = storeView : family → series → field → slot → Option V`
 (the family's files in the order they were written, then its memory database). After ANY sequence
-of writes (with their window compactions) / flushes / file compactions / reopens that satisfies
-`goodOps`, it equals the reference slot map of the points written. -/
-theorem storage_refines_slotmap_partial (w : Nat) (hw : 0 < w) (sch : List (Nat × FieldType)) (ops : List Op)
+of writes (with their window compactions, any slot order, any field type) / flushes / file
+compactions / reopens it equals the reference slot map of the points written. The only condition
+(`goodOps`) is on the input: a field is written with the type it is registered with. -/
+theorem storage_refines_slotmap (w : Nat) (hw : 0 < w) (sch : List (Nat × FieldType)) (ops : List Op)
     (hg : goodOps { Shard.init w with fieldTypes := sch } ops = true) (fam ser fld t : Nat) :
     storeView (runOps { Shard.init w with fieldTypes := sch } ops) fam ser fld t =
       refCell ((runOps { Shard.init w with fieldTypes := sch } ops).fieldAgg fld) (pointsOf ops) fam ser fld t := by
@@ -197,34 +200,35 @@ theorem flush_placement_independent (w : Nat) (hw : 0 < w) (sch : List (Nat × F
     (hp : pointsOf ops1 = pointsOf ops2) (fam ser fld t : Nat) :
     storeView (runOps { Shard.init w with fieldTypes := sch } ops1) fam ser fld t =
       storeView (runOps { Shard.init w with fieldTypes := sch } ops2) fam ser fld t := by
-  rw [storage_refines_slotmap_partial w hw sch ops1 h1, storage_refines_slotmap_partial w hw sch ops2 h2, hp,
+  rw [storage_refines_slotmap w hw sch ops1 h1, storage_refines_slotmap w hw sch ops2 h2, hp,
     runOps_fieldAgg _ ops1 h1, runOps_fieldAgg _ ops2 h2]
 
-/-- the hypotheses are satisfiable by a history with two families, out-of-window writes, a flush
-between two writes of one slot, a file compaction and a reopen. -/
-example : goodOps { Shard.init 15 with fieldTypes := [(1, .sum), (2, .min)] }
-    [.write 1 0 1 1 .sum 5 1, .write 1 0 1 2 .min 5 7, .write 2 1 1 1 .sum 9 2, .write 1 0 1 1 .sum 40 3,
-     .flush 0, .write 3 0 1 1 .sum 5 10, .flush 0, .compact 0, .write 4 0 2 1 .sum 6 1, .reopen,
+/-- the hypothesis is satisfiable by a history with out-of-order window writes (5, 9, 7), a last
+field re-entering a slot, two families, a flush between two writes of one slot, a file
+compaction and a reopen. -/
+example : goodOps { Shard.init 15 with fieldTypes := [(1, .sum), (4, .last)] }
+    [.write 1 0 1 1 .sum 5 1, .write 1 0 1 1 .sum 9 2, .write 1 0 1 1 .sum 7 4, .write 1 0 1 4 .last 5 1,
+     .write 1 0 1 4 .last 25 2, .write 1 0 1 4 .last 5 3, .write 2 1 1 1 .sum 9 2, .flush 0,
+     .write 3 0 1 1 .sum 5 10, .flush 0, .compact 0, .write 4 0 2 1 .sum 6 1, .reopen,
      .write 5 1 1 1 .sum 9 4] = true := by decide
 
 /-! ## month-type family selection -/
 
-/-- for a query range inside one month the month-type selection returns exactly the families
-whose day lies in the range. -/
-theorem month_family_selection_partial (lens : List Nat) (hpos : ∀ l ∈ lens, 0 < l) (qs qe f : Nat)
-    (hle : qs ≤ qe) (hqe : qe < monthStart lens lens.length) (hf : f < monthStart lens lens.length)
-    (hsame : (monthOfDay lens qs).1 = (monthOfDay lens qe).1) :
+/-- **Full strength**: for every query range the month-type selection returns exactly the
+families whose day lies in the range. -/
+theorem month_family_selection (lens : List Nat) (hpos : ∀ l ∈ lens, 0 < l) (qs qe f : Nat)
+    (hle : qs ≤ qe) (hqe : qe < monthStart lens lens.length) (hf : f < monthStart lens lens.length) :
     monthFamilySelected lens qs qe f = (decide (qs ≤ f) && decide (f ≤ qe)) :=
-  monthFamilySelected_same_month lens hpos qs qe f hle hqe hf hsame
+  monthFamilySelected_exact lens hpos qs qe f hle hqe hf
 
-theorem month_select_partial (lens : List Nat) (hpos : ∀ l ∈ lens, 0 < l) (fams : List Nat) (qs qe : Nat)
-    (hle : qs ≤ qe) (hqe : qe < monthStart lens lens.length) (hf : ∀ f ∈ fams, f < monthStart lens lens.length)
-    (hsame : (monthOfDay lens qs).1 = (monthOfDay lens qe).1) :
-    monthSelect lens fams qs qe = monthSelectSpec fams qs qe := by
-  unfold monthSelect monthSelectSpec
+theorem month_select (lens : List Nat) (hpos : ∀ l ∈ lens, 0 < l) (fams : List Nat) (qs qe : Nat)
+    (hle : qs ≤ qe) (hqe : qe < monthStart lens lens.length) (hf : ∀ f ∈ fams, f < monthStart lens lens.length) :
+    monthSelectV Cfg.fixed lens fams qs qe = monthSelectSpec fams qs qe := by
+  unfold monthSelectV monthSelectSpec
   apply List.filter_congr
   intro f hfm
-  exact month_family_selection_partial lens hpos qs qe f hle hqe (hf f hfm) hsame
+  show monthFamilySelected lens qs qe f = _
+  exact month_family_selection lens hpos qs qe f hle hqe (hf f hfm)
 
 /-! ## down-sampling, leaf reduce, field functions -/
 
@@ -245,16 +249,17 @@ theorem leaf_reduce_correct (A : AggType) (calls : List Arrays) (hw : ∀ c ∈ 
 
 /-- **Memory query of one page, end to end** (write buffer + window compactions + the two
 `DownSampling` calls of `timeSeriesIndex.Load` + leaf reduce): for a commutative field aggregate
-and every good write sequence, bucket `t` of the leaf answer is the fold over the slots of the
-reference slot map that fall into the bucket — whatever the window / compress-buffer state. -/
+and EVERY write sequence, bucket `t` of the leaf answer is the fold over the slots of the
+reference slot map that fall into the bucket — whatever the window / compress-buffer state.
+(For first/last the two calls are reduced in load order, not in slot order: unrepaired finding
+`last-downsampling-flushed-slot-wins`.) -/
 theorem page_query_eq_naive_partial (w : Nat) (hw : 0 < w) (A : AggType) (hc : AggType.isComm A = true)
-    (ws : List (Nat × Int)) (hg : goodRunB w A (Buf.fresh w) ws = true)
-    (lo hi tLo tHi g0 qs ratio t : Nat) :
+    (ws : List (Nat × Int)) (lo hi tLo tHi g0 qs ratio t : Nat) :
     arrGet ((pageCalls [A] (runWrites w A (Buf.fresh w) ws) lo hi tLo tHi g0 qs ratio).foldl reduceInto
         (Arrays.init [A])) A t =
       fsum A (slotsOf lo hi)
         (fun s => if tLo ≤ s ∧ s ≤ tHi ∧ (g0 + s - qs) / ratio = t then refSlots A ws s else none) := by
-  obtain ⟨hinv, hview⟩ := run_refines w A ws (Buf.fresh w) (BufInv.fresh hw) hg
+  obtain ⟨hinv, hview⟩ := run_refines w A ws (Buf.fresh w) (BufInv.fresh hw)
   rw [pageCalls_spec (agg_comm_of_isComm hc) _ hinv]
   apply fsum_congr
   intro s _
@@ -263,10 +268,9 @@ theorem page_query_eq_naive_partial (w : Nat) (hw : 0 < w) (A : AggType) (hc : A
 
 /-- **The same page after its flush**: the one `DownSampling` call on the flushed cells gives the
 same buckets as the memory query gave (the metric-level range `[lo, hi]` covers the written
-slots). Together with `storage_refines_slotmap_partial` this is the leaf-level form of
-"independent of when memory databases were flushed". -/
+slots). -/
 theorem page_query_flush_invariant (w : Nat) (hw : 0 < w) (A : AggType) (hc : AggType.isComm A = true)
-    (ws : List (Nat × Int)) (hg : goodRunB w A (Buf.fresh w) ws = true)
+    (ws : List (Nat × Int))
     (lo hi : Nat) (hcov : ∀ s, refSlots A ws s ≠ none → lo ≤ s ∧ s ≤ hi) (tLo tHi g0 qs ratio t : Nat) :
     arrGet (dsCall [A]
         (fun slot => if slot < lo ∨ slot > hi then none
@@ -274,7 +278,7 @@ theorem page_query_flush_invariant (w : Nat) (hw : 0 < w) (A : AggType) (hc : Ag
         lo hi tLo tHi g0 qs ratio) A t =
       arrGet ((pageCalls [A] (runWrites w A (Buf.fresh w) ws) lo hi tLo tHi g0 qs ratio).foldl reduceInto
         (Arrays.init [A])) A t := by
-  obtain ⟨hinv, hview⟩ := run_refines w A ws (Buf.fresh w) (BufInv.fresh hw) hg
+  obtain ⟨hinv, hview⟩ := run_refines w A ws (Buf.fresh w) (BufInv.fresh hw)
   rw [pageCalls_spec (agg_comm_of_isComm hc) _ hinv, dsCall_spec]
   apply fsum_congr
   intro s _
@@ -283,29 +287,32 @@ theorem page_query_flush_invariant (w : Nat) (hw : 0 < w) (A : AggType) (hc : Ag
     apply hcov t
     rw [hview t] at ht
     simpa [memView_fresh] using ht
-  rw [flushCell_eq_memView A hinv (Or.inl hc) lo hi s hcov']
+  rw [flushCell_eq_memView A hinv lo hi s hcov']
 
-/-- **Leaf answer = naive reference.** For every history of writes / window compactions /
-flushes / file compactions / reopens with `goodOps`, every query on a field whose function's agg
-type is the field's own commutative aggregate (sum on sum/histogram, min on min, max on max), any
-time range, interval ratio, group of series and list of families: if in every family the query
-does not hit a not-found rule and every overlapping file feeds the queried field (`familyOKB`,
-executable), then bucket `t` of the leaf answer of the group equals the reference — independent of
-where the flushes, compactions and reopens were placed. -/
+/-- **Leaf answer = naive reference.** For every history of writes (any slot order, any field
+types) / window compactions / flushes / file compactions / reopens, every query on a field whose
+function's agg type is the field's own commutative aggregate (sum on sum/histogram, min on min,
+max on max), any time range, interval ratio, list of families, any group of series and any other
+selected fields (`ScopeOK`: the scope holds the queried field and the group's series, as the
+planner builds it): bucket `t` of the leaf answer of the group equals the reference — independent
+of where the flushes, compactions and reopens were placed, and of which sources of a family hold
+data for the query. (The hypothesis on the function excludes the unrepaired findings
+`max-of-sum-field-split-by-flush` and `last-field-flushed-value-wins`.) -/
 theorem query_eq_naive_partial (w : Nat) (hw : 0 < w) (sch : List (Nat × FieldType)) (ops : List Op)
     (hg : goodOps { Shard.init w with fieldTypes := sch } ops = true)
     (q : Query) (sc : Scope) (fams group : List Nat)
     (hfa : (runOps { Shard.init w with fieldTypes := sch } ops).fieldAgg q.field = q.fieldAgg)
     (hF : q.funcAgg = q.fieldAgg) (hc : AggType.isComm q.fieldAgg = true) (hspf : 0 < q.spf)
-    (hok : ∀ fam ∈ fams, familyOKB (runOps { Shard.init w with fieldTypes := sch } ops) q sc fam = true) (t : Nat) :
+    (hsc : ScopeOK q sc group) (t : Nat) :
     arrGet (leafGroup (runOps { Shard.init w with fieldTypes := sch } ops) q sc [q.fieldAgg] fams group) q.fieldAgg t =
       naiveBucket q (pointsOf ops) group fams t := by
   have hinv : Inv (runOps { Shard.init w with fieldTypes := sch } ops) (pointsOf ops) := by
     simpa using inv_runOps ops _ [] (inv_init w hw sch) hg
+  have hinv2 : Inv2 (runOps { Shard.init w with fieldTypes := sch } ops) :=
+    inv2_runOps ops _ (inv2_init w sch)
   have hcomm : AggComm ((runOps { Shard.init w with fieldTypes := sch } ops).fieldAgg q.field) := by
     rw [hfa]; exact agg_comm_of_isComm hc
-  have := leafGroup_eq_fsum _ _ hinv q sc hspf hcomm fams group
-    (fun fam hf => familyOK_of_B _ q sc fam (hok fam hf)) t
+  have := leafGroup_eq_fsum _ _ hinv hinv2 q sc hspf hcomm fams group hsc t
   rw [hfa] at this
   rw [this, naiveBucket_eq_fsum, hF]
   apply fsum_congr
@@ -324,25 +331,26 @@ theorem query_group_eq_naive_partial (w : Nat) (hw : 0 < w) (sch : List (Nat × 
     (q : Query) (sc : Scope) (fams group : List Nat)
     (hfa : (runOps { Shard.init w with fieldTypes := sch } ops).fieldAgg q.field = q.fieldAgg)
     (hF : q.funcAgg = q.fieldAgg) (hc : AggType.isComm q.fieldAgg = true) (hspf : 0 < q.spf)
-    (hok : ∀ fam ∈ fams, familyOKB (runOps { Shard.init w with fieldTypes := sch } ops) q sc fam = true) :
+    (hsc : ScopeOK q sc group) :
     bucketsOf q (leafGroup (runOps { Shard.init w with fieldTypes := sch } ops) q sc [q.fieldAgg] fams group) q.fieldAgg =
       naiveGroup q (pointsOf ops) group fams := by
   unfold bucketsOf naiveGroup
   congr 1
   funext t
-  rw [query_eq_naive_partial w hw sch ops hg q sc fams group hfa hF hc hspf hok t]
+  rw [query_eq_naive_partial w hw sch ops hg q sc fams group hfa hF hc hspf hsc t]
 
-/-- the hypotheses are satisfiable: two series, two families, window exits, a flush between two
-writes of one slot, a file compaction, a reopen; query over both families with ratio 6. -/
+/-- a non-trivial instance: out-of-order window writes, two series, two families, a series that
+exists only in memory and a field (2) that exists only in a file, a file compaction; the query on
+field 1 for series 1 and 2 over both families with ratio 6. -/
 example :
-    let ops : List Op := [.write 1 0 1 1 .sum 5 1, .write 1 0 2 1 .sum 5 7, .write 2 1 1 1 .sum 9 2,
-      .write 1 0 1 1 .sum 30 3, .flush 0, .write 3 0 1 1 .sum 5 10, .write 3 0 2 1 .sum 6 1, .flush 0, .compact 0,
-      .write 4 0 1 1 .sum 7 1, .write 4 0 2 1 .sum 7 1]
-    let s := runOps { Shard.init 15 with fieldTypes := [(1, .sum)] } ops
+    let ops : List Op := [.write 1 0 1 1 .sum 5 1, .write 1 0 1 1 .sum 9 2, .write 1 0 1 1 .sum 7 4,
+      .write 1 0 1 2 .min 5 7, .write 2 1 1 1 .sum 9 2, .write 1 0 1 1 .sum 30 3, .flush 0,
+      .write 3 0 1 1 .sum 5 10, .flush 0, .compact 0, .write 4 0 2 1 .sum 7 1]
+    let s := runOps { Shard.init 15 with fieldTypes := [(1, .sum), (2, .min)] } ops
     let q : Query := ⟨1, .sum, .sum, 32, 0, 63, 6⟩
-    goodOps { Shard.init 15 with fieldTypes := [(1, .sum)] } ops = true ∧
-    (∀ fam ∈ [0, 1], familyOKB s q ⟨[1], [1, 2]⟩ fam = true) ∧
-    bucketsOf q (leafGroup s q ⟨[1], [1, 2]⟩ [.sum] [0, 1] [1, 2]) .sum = [(0, 18), (1, 3), (5, 3), (6, 2)] := by
+    goodOps { Shard.init 15 with fieldTypes := [(1, .sum), (2, .min)] } ops = true ∧
+    bucketsOf q (leafGroup s q ⟨[1], [1, 2]⟩ [.sum] [0, 1] [1, 2]) .sum = naiveGroup q (pointsOf ops) [1, 2] [0, 1] ∧
+    (naiveGroup q (pointsOf ops) [1, 2] [0, 1]).length = 4 := by
   decide
 
 /-- **Field functions** on the abstract map: sum/min/max/count/first/last return the field's array
@@ -361,34 +369,94 @@ namespace Neg
 
 set_option maxRecDepth 50000
 
-/-- `field-writer-end-shrinks`: sum field, slots 5, 9, 7 in one window: `end` shrinks to 2 and
-slot 9 is invisible to the memory query (and to compaction and flush). -/
+/-! ### repaired: negations about the OLD variants (what each fix repaired) -/
+
+/-- `field-writer-end-shrinks` (fix 02a0667): sum field, slots 5, 9, 7 in one window. Before the
+fix `end` shrank to 2 and slot 9 was invisible to the memory query (and to compaction and flush);
+the repaired write buffer answers the reference. -/
 theorem end_shrinks_hides_slot :
-    memView .sum (runWrites 15 .sum (Buf.fresh 15) [(5, 1), (9, 2), (7, 4)]) 9 = none ∧
+    memView .sum (runWritesV Cfg.old 15 .sum (Buf.fresh 15) [(5, 1), (9, 2), (7, 4)]) 9 = none ∧
     refSlots .sum [(5, 1), (9, 2), (7, 4)] 9 = some 2 ∧
-    goodRunB 15 .sum (Buf.fresh 15) [(5, 1), (9, 2), (7, 4)] = false := by decide
+    memView .sum (runWrites 15 .sum (Buf.fresh 15) [(5, 1), (9, 2), (7, 4)]) 9 = some 2 := by decide
 
-/-- ... and the flush writes the block without it. -/
+/-- ... and the flush wrote the block without it. -/
 theorem end_shrinks_flush_loses_slot :
-    cellAt (flushCells .sum (runWrites 15 .sum (Buf.fresh 15) [(5, 1), (9, 2), (7, 4)]) 5 9) 4 = none := by decide
+    cellAt (flushCellsV Cfg.old .sum (runWritesV Cfg.old 15 .sum (Buf.fresh 15) [(5, 1), (9, 2), (7, 4)]) 5 9) 4 = none ∧
+    cellAt (flushCells .sum (runWrites 15 .sum (Buf.fresh 15) [(5, 1), (9, 2), (7, 4)]) 5 9) 4 = some 2 := by decide
 
-/-- `merge-arg-order-last`: last field, slot 5 = 1, slot 25 (window left), slot 5 = 3: the memory
-query answers 3, the flushed block holds 1. -/
+/-- `merge-arg-order-last` (fix 73bdfe1): last field, slot 5 = 1, slot 25 (window left), slot 5 = 3:
+the memory query answered 3, the flushed block held 1; repaired: 3. -/
 theorem merge_keeps_older_last_value :
-    memView .last (runWrites 15 .last (Buf.fresh 15) [(5, 1), (25, 2), (5, 3)]) 5 = some 3 ∧
-    cellAt (flushCells .last (runWrites 15 .last (Buf.fresh 15) [(5, 1), (25, 2), (5, 3)]) 5 25) 0 = some 1 ∧
-    refSlots .last [(5, 1), (25, 2), (5, 3)] 5 = some 3 := by decide
+    memView .last (runWritesV Cfg.old 15 .last (Buf.fresh 15) [(5, 1), (25, 2), (5, 3)]) 5 = some 3 ∧
+    cellAt (flushCellsV Cfg.old .last (runWritesV Cfg.old 15 .last (Buf.fresh 15) [(5, 1), (25, 2), (5, 3)]) 5 25) 0 = some 1 ∧
+    refSlots .last [(5, 1), (25, 2), (5, 3)] 5 = some 3 ∧
+    cellAt (flushCells .last (runWrites 15 .last (Buf.fresh 15) [(5, 1), (25, 2), (5, 3)]) 5 25) 0 = some 3 := by decide
 
 def sch : List (Nat × FieldType) := [(1, .sum), (2, .min), (3, .max), (4, .last)]
+/-- the repaired code -/
 def s0 : Shard := { Shard.init 15 with fieldTypes := sch }
+/-- the code before the fixes -/
+def sOld : Shard := { Shard.initV Cfg.old 15 with fieldTypes := sch }
 def qAll (fld : Nat) (fa : AggType) : Query := ⟨fld, fa, fa, 32, 0, 31, 1⟩
 
-/-- `memdb-created-tick-collision`: two families get memory databases with the same created time;
-flushing family 0 clears the shared time range, family 1's own flush then writes nothing. -/
+/-- `memdb-created-tick-collision` (fix 4be15ce): two families got memory databases with the same
+created time (tick 1); flushing family 0 cleared the shared time range, family 1's own flush then
+wrote nothing. Repaired: created times are unique, the point survives. -/
 theorem tick_collision_loses_family :
-    storeView (runOps s0 [.write 1 0 1 1 .sum 5 1, .write 1 1 1 1 .sum 6 2, .flush 0, .flush 1]) 1 1 1 6 = none ∧
+    storeView (runOps sOld [.write 1 0 1 1 .sum 5 1, .write 1 1 1 1 .sum 6 2, .flush 0, .flush 1]) 1 1 1 6 = none ∧
     refCell .sum (pointsOf [.write 1 0 1 1 .sum 5 1, .write 1 1 1 1 .sum 6 2, .flush 0, .flush 1]) 1 1 1 6 = some 2 ∧
-    goodOps s0 [.write 1 0 1 1 .sum 5 1, .write 1 1 1 1 .sum 6 2, .flush 0, .flush 1] = false := by decide
+    storeView (runOps s0 [.write 1 0 1 1 .sum 5 1, .write 1 1 1 1 .sum 6 2, .flush 0, .flush 1]) 1 1 1 6 = some 2 := by
+  decide
+
+/-- `two-functions-one-field-cross-aggregated` (fix eb2ea99): `sum(f), max(f)` on one point 8: the
+reduce fed the max array into the sum array as well (16); repaired: 8. -/
+theorem two_functions_cross_aggregated :
+    arrGet (leafGroup (runOps sOld [.write 1 0 2 1 .sum 7 8]) (qAll 1 .sum) ⟨[1], [2]⟩ [.sum, .max] [0] [2]) .sum 7 = some 16 ∧
+    naiveBucket (qAll 1 .sum) (pointsOf [.write 1 0 2 1 .sum 7 8]) [2] [0] 7 = some 8 ∧
+    arrGet (leafGroup (runOps s0 [.write 1 0 2 1 .sum 7 8]) (qAll 1 .sum) ⟨[1], [2]⟩ [.sum, .max] [0] [2]) .sum 7 = some 8 ∧
+    arrGet (leafGroup (runOps s0 [.write 1 0 2 1 .sum 7 8]) (qAll 1 .sum) ⟨[1], [2]⟩ [.sum, .max] [0] [2]) .max 7 = some 8 := by
+  decide
+
+/-- `family-filter-notfound-drops-memory` (fix 636394b): series 1 flushed, series 2 only in
+memory, query on series 2: the file filter's not-found failed the whole family. -/
+theorem notfound_drops_memory :
+    arrGet (leafGroup (runOps sOld [.write 1 0 1 1 .sum 5 1, .flush 0, .write 2 0 2 1 .sum 6 2])
+      (qAll 1 .sum) ⟨[1], [2]⟩ [.sum] [0] [2]) .sum 6 = none ∧
+    naiveBucket (qAll 1 .sum) (pointsOf [.write 1 0 1 1 .sum 5 1, .flush 0, .write 2 0 2 1 .sum 6 2]) [2] [0] 6 = some 2 ∧
+    arrGet (leafGroup (runOps s0 [.write 1 0 1 1 .sum 5 1, .flush 0, .write 2 0 2 1 .sum 6 2])
+      (qAll 1 .sum) ⟨[1], [2]⟩ [.sum] [0] [2]) .sum 6 = some 2 := by
+  decide
+
+/-- `family-filter-notfound-drops-files` (fix 636394b): field 1 only in the file, the memory
+database holds only field 2: the memory filter's field-not-found failed the whole family. -/
+theorem notfound_drops_files :
+    arrGet (leafGroup (runOps sOld [.write 1 0 1 1 .sum 5 1, .write 1 0 1 2 .min 5 1, .flush 0, .write 2 0 1 2 .min 6 2])
+      (qAll 1 .sum) ⟨[1], [1]⟩ [.sum] [0] [1]) .sum 5 = none ∧
+    naiveBucket (qAll 1 .sum)
+      (pointsOf [.write 1 0 1 1 .sum 5 1, .write 1 0 1 2 .min 5 1, .flush 0, .write 2 0 1 2 .min 6 2]) [1] [0] 5 = some 1 ∧
+    arrGet (leafGroup (runOps s0 [.write 1 0 1 1 .sum 5 1, .write 1 0 1 2 .min 5 1, .flush 0, .write 2 0 1 2 .min 6 2])
+      (qAll 1 .sum) ⟨[1], [1]⟩ [.sum] [0] [1]) .sum 5 = some 1 := by
+  decide
+
+/-- `single-field-file-read-into-first-query-field` (fix c783635): files {fmax} and {fmin}, query
+on both: the first file's fmax value was answered as fmin (query field index 0). -/
+theorem single_field_file_misattributed :
+    arrGet (leafGroup (runOps sOld [.write 1 0 1 3 .max 5 1, .flush 0, .write 2 0 1 2 .min 6 25, .flush 0])
+      (qAll 2 .min) ⟨[2, 3], [1]⟩ [.min] [0] [1]) .min 5 = some 1 ∧
+    naiveBucket (qAll 2 .min)
+      (pointsOf [.write 1 0 1 3 .max 5 1, .flush 0, .write 2 0 1 2 .min 6 25, .flush 0]) [1] [0] 5 = none ∧
+    arrGet (leafGroup (runOps s0 [.write 1 0 1 3 .max 5 1, .flush 0, .write 2 0 1 2 .min 6 25, .flush 0])
+      (qAll 2 .min) ⟨[2, 3], [1]⟩ [.min] [0] [1]) .min 5 = none := by
+  decide
+
+/-- `month-boundary-family-selection` (fix 8adefd6): 2023, families Jun 27 (day 177) and Jul 3
+(day 183), query Jun 25 – Jul 5 (days 175..185): nothing was selected; repaired: both. -/
+theorem month_boundary_selects_nothing :
+    monthSelectV Cfg.old [31, 28, 31, 30, 31, 30, 31, 31, 30, 31, 30, 31] [177, 183] 175 185 = [] ∧
+    monthSelectSpec [177, 183] 175 185 = [177, 183] ∧
+    monthSelectV Cfg.fixed [31, 28, 31, 30, 31, 30, 31, 31, 30, 31, 30, 31] [177, 183] 175 185 = [177, 183] := by decide
+
+/-! ### not repaired: negations about the current code (known findings) -/
 
 /-- `last-field-flushed-value-wins`: last field, slot 5 = 1, flush, slot 5 = 2: memory is loaded
 before the file and `last` keeps what was loaded last. -/
@@ -414,45 +482,6 @@ theorem max_of_split_sum_slot :
     naiveBucket ⟨1, .sum, .max, 32, 0, 31, 1⟩
       (pointsOf [.write 1 0 1 1 .sum 7 4, .flush 0, .write 2 0 1 1 .sum 7 16]) [1] [0] 7 = some 20 := by
   decide
-
-/-- `two-functions-one-field-cross-aggregated`: `sum(f), max(f)` on one point 8: the reduce feeds
-the max array into the sum array as well. -/
-theorem two_functions_cross_aggregated :
-    arrGet (leafGroup (runOps s0 [.write 1 0 2 1 .sum 7 8]) (qAll 1 .sum) ⟨[1], [2]⟩ [.sum, .max] [0] [2]) .sum 7 = some 16 ∧
-    naiveBucket (qAll 1 .sum) (pointsOf [.write 1 0 2 1 .sum 7 8]) [2] [0] 7 = some 8 := by
-  decide
-
-/-- `family-filter-notfound-drops-memory`: series 1 flushed, series 2 only in memory, query on
-series 2: the file filter's not-found fails the whole family. -/
-theorem notfound_drops_memory :
-    arrGet (leafGroup (runOps s0 [.write 1 0 1 1 .sum 5 1, .flush 0, .write 2 0 2 1 .sum 6 2])
-      (qAll 1 .sum) ⟨[1], [2]⟩ [.sum] [0] [2]) .sum 6 = none ∧
-    naiveBucket (qAll 1 .sum) (pointsOf [.write 1 0 1 1 .sum 5 1, .flush 0, .write 2 0 2 1 .sum 6 2]) [2] [0] 6 = some 2 := by
-  decide
-
-/-- `family-filter-notfound-drops-files`: field 1 only in the file, the memory database holds only
-field 2: the memory filter's field-not-found fails the whole family. -/
-theorem notfound_drops_files :
-    arrGet (leafGroup (runOps s0 [.write 1 0 1 1 .sum 5 1, .write 1 0 1 2 .min 5 1, .flush 0, .write 2 0 1 2 .min 6 2])
-      (qAll 1 .sum) ⟨[1], [1]⟩ [.sum] [0] [1]) .sum 5 = none ∧
-    naiveBucket (qAll 1 .sum)
-      (pointsOf [.write 1 0 1 1 .sum 5 1, .write 1 0 1 2 .min 5 1, .flush 0, .write 2 0 1 2 .min 6 2]) [1] [0] 5 = some 1 := by
-  decide
-
-/-- `single-field-file-read-into-first-query-field`: files {fmax} and {fmin}, query on both: the
-first file's fmax value is answered as fmin (query field index 0). -/
-theorem single_field_file_misattributed :
-    arrGet (leafGroup (runOps s0 [.write 1 0 1 3 .max 5 1, .flush 0, .write 2 0 1 2 .min 6 25, .flush 0])
-      (qAll 2 .min) ⟨[2, 3], [1]⟩ [.min] [0] [1]) .min 5 = some 1 ∧
-    naiveBucket (qAll 2 .min)
-      (pointsOf [.write 1 0 1 3 .max 5 1, .flush 0, .write 2 0 1 2 .min 6 25, .flush 0]) [1] [0] 5 = none := by
-  decide
-
-/-- `month-boundary-family-selection`: 2023, families Jun 27 (day 177) and Jul 3 (day 183),
-query Jun 25 – Jul 5 (days 175..185): nothing is selected. -/
-theorem month_boundary_selects_nothing :
-    monthSelect [31, 28, 31, 30, 31, 30, 31, 31, 30, 31, 30, 31] [177, 183] 175 185 = [] ∧
-    monthSelectSpec [177, 183] 175 185 = [177, 183] := by decide
 
 end Neg
 
